@@ -640,3 +640,21 @@ Proof.
 Qed.
 
 End PutGet.
+
+(* distinct ids / outputs are distinct files: the index and data suffixes differ *)
+Lemma path_name_inj : forall p q, path_name p = path_name q -> p = q.
+Proof.
+  intros [a|a] [b|b]; unfold path_name; intros E.
+  - apply app_inv_tail in E. apply hex_inj in E. congruence.
+  - exfalso. change (name_sep ++ index_key) with ([x2d] ++ [x61]) in E.
+    change (name_sep ++ data_key) with ([x2d] ++ [x64]) in E.
+    rewrite !app_assoc in E. apply app_inj_tail in E. destruct E as [_ E]; discriminate.
+  - exfalso. change (name_sep ++ index_key) with ([x2d] ++ [x61]) in E.
+    change (name_sep ++ data_key) with ([x2d] ++ [x64]) in E.
+    rewrite !app_assoc in E. apply app_inj_tail in E. destruct E as [_ E]; discriminate.
+  - apply app_inv_tail in E. apply hex_inj in E. congruence.
+Qed.
+
+(* the code reads and writes an entry / an output under the same key *)
+Lemma keys_agree : index_key_get = index_key /\ data_key_get = data_key.
+Proof. split; reflexivity. Qed.
